@@ -888,6 +888,79 @@ class Tab:
         if not nbad:
             self.ok("T21", n, "the linear forms of _upAp7/_upAp7r (and the overflow-checked variants) times the constant vectors of _downAp7/_downAp7r give 7*identity in IJ coordinates, scale 1/7")
 
+    # ------------------------------------------------------------- T22
+    def _linmap(self, fname, in_arg, in_fields, out_arg, out_fields):
+        """linear map a conversion function applies: {out field: coefficients over in_fields (+const)}; fields never stored keep their input value"""
+        f = self.m.fn(fname)
+
+        def lin(o, depth=0):
+            if depth > 12:
+                return None
+            if o[0] == "c":
+                return tuple(0 for _ in in_fields) + (ir.cint_signed(o),)
+            if o[0] != "i":
+                return None
+            i = f.insts[o[1]]
+            if i.op == "load":
+                base, path = ir.field_path(self.m, f, i.ops[0])
+                if base == ("a", in_arg) and len(path) == 1 and path[0][0] == "f" and path[0][2] in in_fields:
+                    return tuple(1 if x == path[0][2] else 0 for x in in_fields) + (0,)
+                return None
+            if i.op in ("add", "sub"):
+                a, b = lin(i.ops[0], depth + 1), lin(i.ops[1], depth + 1)
+                if a is None or b is None:
+                    return None
+                sg = 1 if i.op == "add" else -1
+                return tuple(x + sg * y for x, y in zip(a, b))
+            if i.op in ("mul", "shl") and i.ops[1][0] == "c":
+                a = lin(i.ops[0], depth + 1)
+                if a is None:
+                    return None
+                k = ir.cint_signed(i.ops[1]) if i.op == "mul" else (1 << i.ops[1][1])
+                return tuple(x * k for x in a)
+            return None
+        out = {}
+        for st in f.all_insts():
+            if st.op != "store":
+                continue
+            base, path = ir.field_path(self.m, f, st.ops[1])
+            if base == ("a", out_arg) and len(path) == 1 and path[0][0] == "f" and path[0][2] in out_fields:
+                l_ = lin(st.ops[0])
+                if l_ is None:
+                    raise AnalysisBroken("%s: the value stored to %s is not linear in the input coordinates" % (fname, path[0][2]))
+                if path[0][2] in out:
+                    raise AnalysisBroken("%s: %s is stored more than once" % (fname, path[0][2]))
+                out[path[0][2]] = l_
+        if in_arg == out_arg:
+            for k, fld in enumerate(out_fields):
+                if fld not in out and fld in in_fields:
+                    out[fld] = tuple(1 if x == fld else 0 for x in in_fields) + (0,)
+        if set(out) != set(out_fields):
+            raise AnalysisBroken("%s: not every output coordinate is stored (%s)" % (fname, sorted(out)))
+        return out, f
+
+    def T22(self):
+        """coordinate conversions that are documented as mutually inverse compose to the identity (ijk+ coordinates modulo (1,1,1), which
+        _ijkNormalize removes): ijkToIj/ijToIjk and ijkToCube/cubeToIjk"""
+        n = nbad = 0
+        IJK, IJ = ("i", "j", "k"), ("i", "j")
+        pairs = [("ijkToIj", (0, IJK, 1, IJ), "ijToIjk", (0, IJ, 1, IJK)), ("ijkToCube", (0, IJK, 0, IJK), "cubeToIjk", (0, IJK, 0, IJK))]
+        for fa, sa, fb, sb in pairs:
+            A, fA = self._linmap(fa, *sa)
+            B, fB = self._linmap(fb, *sb)
+            for d, U in enumerate(([1, 0, 0], [0, 1, 0], [0, 0, 1], [2, 1, 0], [0, 3, 5])):
+                n += 1
+                mid = {fld: sum(c * U[k] for k, c in enumerate(A[fld][:-1])) + A[fld][-1] for fld in sa[3]}
+                back = [sum(c * mid[fin] for fin, c in zip(sb[1], B[fld][:-1])) + B[fld][-1] for fld in sb[3]]
+                diff = [b - u for b, u in zip(back, U)]
+                if len(set(diff)) != 1:
+                    nbad += 1
+                    self.bad("T22", "%s:%s" % (fa, fb), "%s followed by %s maps the ijk+ coordinates %s to %s, which is not the same cell (the difference %s is not a multiple of (1,1,1)); "
+                             "the two conversions are documented as mutually inverse" % (fa, fb, U, back, diff), fB.where())
+                    break
+        if not nbad:
+            self.ok("T22", n, "ijkToIj/ijToIjk and ijkToCube/cubeToIjk compose to the identity on ijk+ coordinates modulo (1,1,1) (linear forms read from the IR)")
+
     # ------------------------------------------------------------- T15 per-resolution constant tables
     def T15(self):
         """average area / edge tables are consistent between their units"""
@@ -1049,7 +1122,7 @@ def macro_values(cfg, repo=None):
     return floats, ints
 
 
-ALL = ["T1", "T2", "T3", "T4", "T5", "T6", "T7", "T8", "T9", "T10", "T11", "T12", "T13", "T14", "T15", "T16", "T17", "T18", "T19", "T20", "T21"]
+ALL = ["T1", "T2", "T3", "T4", "T5", "T6", "T7", "T8", "T9", "T10", "T11", "T12", "T13", "T14", "T15", "T16", "T17", "T18", "T19", "T20", "T21", "T22"]
 
 
 def run(ctx, m, cfg, rels, only_keys=None):
